@@ -153,6 +153,37 @@ def stepOK (r : Rec) : Bool :=
         | some m' => m' == m || (expired r.now m && m' == release r.now m)
         | none => pruneAllowed r m)))
 
+/-- `C02.stepOK` with the disappearance clause `D` as a parameter. -/
+def stepOKWith (D : Rec → Msg → Bool) (r : Rec) : Bool :=
+  nodupIds r.after &&
+  r.after.all (fun m' =>
+    match find r.before m'.id with
+    | some m =>
+        if vanished r m then m'.st == .queued
+        else legalTrans r m m'
+    | none => enqueueOK r && (envIds r.op).contains m'.id && m'.st == .queued) &&
+  r.before.all (fun m => !vanished r m || D r m) &&
+  (!isErr r.resp ||
+    (r.after.all (fun m' => (find r.before m'.id).isSome) &&
+     r.before.all (fun m =>
+        match find r.after m.id with
+        | some m' => m' == m || (expired r.now m && m' == release r.now m)
+        | none => pruneAllowed r m)))
+
+/-- `disappearOK` with the eviction clause corrected: a message of `after` whose id was stored by this
+    very enqueue is a *new* message, not a survivor, even when it happens to be field-for-field equal to
+    some message of `before`. -/
+def disappearOK' (r : Rec) (m : Msg) : Bool :=
+  (liveLeased r.now m && (presented r.op).contains m.lease && !decide (r.cfg.deliveredRet > 0) &&
+    (match leaseKind? r.op with | some .ack => true | _ => false)) ||
+  (m.st == .dead && (match r.op with | .byIds .deleteDead ids => (normIds ids).contains m.id | _ => false)) ||
+  pruneAllowed r m ||
+  (m.st == .queued && r.cfg.dropOldest && r.cfg.maxDepth > 0 && enqueueOK r &&
+    r.after.all (fun s => !(s.st == .queued) || !(r.before.any (· == s)) || (envIds r.op).contains s.id ||
+      decide (m.recv ≤ s.recv)))
+
+def stepOK' (r : Rec) : Bool := stepOKWith disappearOK' r
+
 end C02
 
 /-! ## C03 — lease exclusivity -/
@@ -383,7 +414,7 @@ end C14
 /-- all per-record predicates, with the name of each failing one -/
 def checkAll (h : Hist) (r : Rec) : Hist × List String :=
   let fails :=
-    (if C02.stepOK r then [] else ["C02"]) ++
+    (if C02.stepOK' r then [] else ["C02"]) ++
     (if C03.stepOK h r then [] else ["C03"]) ++
     (if C04.stepOK' r then [] else ["C04"]) ++
     (if C05.stepOK' r then [] else ["C05"]) ++
